@@ -472,13 +472,19 @@ def c16(tier):
     cache = {}
     for module, cfg in scen:
         for mode in modes:
-            model_replay_cached("C16", tier, ev, rep, module, cfg, mode, cache)
+            model_replay_cached("C16", tier, ev, rep, module, cfg, mode, cache,
+                                stride=2 if (tier == "quick" and mode == "numpy.float64") else 1)
     # a minimal user-defined point type (point + point, scalar * point only): evaluation, insertion, elevation, splitting
     for module, cfg in scen[:5]:
         if "basis" in cfg:
             continue
         model_replay_cached("C16", tier, ev, rep, module, cfg, "minimal-point", cache,
-                            filt=lambda t: not t["pre"].get("a", {}).get("W"))
+                            filt=lambda t: not t["pre"].get("a", {}).get("W"), stride=3 if tier == "quick" else 1)
+    # huge rationals (80-bit numerators and denominators) through an affine reparametrisation and a scaling of the points
+    for module, cfg in scen[:5]:
+        if "basis" in cfg:
+            continue
+        model_replay_cached("C16", tier, ev, rep, module, cfg, "huge", cache, stride=3 if tier == "quick" else 1)
     # operations whose result the spec does not pin down (forced removal / reduction, lossy fitting): the SAME
     # TLC-generated call is executed with Fraction data and with float data and the two results are compared
     for module, cfg in [("MC_Curve.tla", "MC_Curve_remove_quick.cfg"), ("MC_Curve.tla", "MC_Curve_decrease_quick.cfg"),
@@ -535,7 +541,7 @@ def cross_mode(ev, rep, module, cfg, cache, limit=None):
     ev.extra["cross_mode_compared"] = ev.extra.get("cross_mode_compared", 0) + n
 
 
-def model_replay_cached(prop, tier, ev, rep, module, cfg, mode, cache, filt=None):
+def model_replay_cached(prop, tier, ev, rep, module, cfg, mode, cache, filt=None, stride=1):
     """like model_replay but one TLC run serves several number modes; Binding B is skipped in inexact modes"""
     key = (module, cfg)
     if key not in cache:
@@ -557,6 +563,8 @@ def model_replay_cached(prop, tier, ev, rep, module, cfg, mode, cache, filt=None
     recs = [t for t in res.records if t["ret"].get("rel") != "sem" or r.mode.exact]
     if filt is not None:
         recs = [t for t in recs if filt(t)]
+    if stride > 1:      # quick tier: every stride-th transition, offset by the seed
+        recs = recs[core.seed() % stride::stride]
     n = replay_all(recs, r, on_fail, sample=lambda t: ev.sample({"mode": mode, **short(t)}), path_records=res.records)
     ev.validated += n
     per = ev.extra.setdefault("replayed_by_mode", {})
